@@ -206,7 +206,9 @@ def _bounded_quick():
     b1, n1 = native_malloc()
     b2, n2 = native_hashseed((1, 2, 3))
     b3, n3 = native(0, cfgs=(1,), thread_counts=(1, 3))        # screening kernel with different numbers of threads
-    return b1 + b2 + b3, n1 + n2 + n3
+    from checks import physics_native as pn
+    b4, n4 = pn.history_cases(0)                                  # a device object with a history simulates like a fresh equal device
+    return b1 + b2 + b3 + b4, n1 + n2 + n3 + n4
 
 
 def units():
